@@ -661,6 +661,99 @@ func checkStreams(s *hx.Seq) {
 	}
 }
 
+// checkLifecycleStreams: a collection item that is written, removed and written again under a tolerance:
+// what the subscriber holds for an id ends with its removal, so the first write after a removal is always
+// delivered (as ADD, without an old value), and the old value of every delivered change is the value the
+// subscriber last received for that id.
+func checkLifecycleStreams(s *hx.Seq) {
+	eq := cmp.Equal(cmp.FloatValueApprox(0, 0.1))
+	alpha := []float32{1, 1.0625, 1.25, -1} // -1 = delete
+	var seqs [][]float32
+	var rec func(cur []float32)
+	rec = func(cur []float32) {
+		hasDel := false
+		for _, v := range cur {
+			if v < 0 {
+				hasDel = true
+			}
+		}
+		if hasDel {
+			seqs = append(seqs, append([]float32{}, cur...))
+		}
+		if len(cur) == 4 {
+			return
+		}
+		for _, v := range alpha {
+			rec(append(cur, v))
+		}
+	}
+	rec(nil)
+	for _, sq := range seqs {
+		for _, seeded := range []bool{true, false} {
+			s.Eval(1)
+			s.Trans(len(sq))
+			ctx, cancel := context.WithCancel(context.Background())
+			opts := []resource.Option{resource.WithMessageEquivalence(eq)}
+			if seeded {
+				opts = append(opts, resource.WithInitialRecord("a", &T{DefaultFloat: 1}))
+			}
+			c := resource.NewCollection(opts...)
+			ch := c.Pull(ctx, resource.WithBackpressure(true))
+			var got []string
+			done := make(chan struct{})
+			fl := func(m proto.Message) string {
+				if m == nil {
+					return "-"
+				}
+				return fmt.Sprint(m.(*T).DefaultFloat)
+			}
+			go func() {
+				for e := range ch {
+					if e.Id == "end" {
+						break
+					}
+					got = append(got, fmt.Sprintf("%v:%s>%s", e.ChangeType, fl(e.OldValue), fl(e.NewValue)))
+				}
+				close(done)
+			}()
+			for _, f := range sq {
+				if f < 0 {
+					c.Delete("a", resource.WithAllowMissing(true))
+				} else {
+					c.Update("a", &T{DefaultFloat: f}, resource.WithCreateIfAbsent())
+				}
+			}
+			c.Update("end", &T{DefaultFloat: 5}, resource.WithCreateIfAbsent())
+			<-done
+			cancel()
+			var want []string
+			present, held := seeded, float32(1)
+			if seeded {
+				want = append(want, "ADD:->1")
+			}
+			for _, f := range sq {
+				switch {
+				case f < 0 && present:
+					want = append(want, fmt.Sprintf("REMOVE:%v>-", held))
+					present = false
+				case f < 0:
+				case !present:
+					want = append(want, fmt.Sprintf("ADD:->%v", f))
+					present, held = true, f
+				case math.Abs(float64(f-held)) > 0.1:
+					want = append(want, fmt.Sprintf("UPDATE:%v>%v", held, f))
+					held = f
+				}
+			}
+			if fmt.Sprint(got) != fmt.Sprint(want) {
+				k := fmt.Sprintf("stream-equivalence-lifecycle seeded=%v writes=%v", seeded, sq)
+				s.Fail(k, fmt.Sprintf("tolerance 0.1, -1 = delete: delivered %v, expected %v", got, want), map[string]any{"stream": true})
+			}
+			s.State(fmt.Sprintf("lifecycle %v %v", seeded, sq))
+		}
+	}
+}
+
 // checkMaskedStreams: equivalence together with a read mask - the subscriber holds the
 // PROJECTED value, so a write that changes only fields outside the mask is equivalent to
 // what it holds.
@@ -835,6 +928,7 @@ func main() {
 		}
 		checkStreams(s)
 		checkMaskedStreams(s)
+		checkLifecycleStreams(s)
 		s.Distinct("value")
 		s.Distinct("collection")
 		s.Sample("Value and Collection with WithMessageEquivalence(Equal(FloatValueApprox(0,0.1))): all write sequences of length <=3 over {1, 1.0625, 1.125, 1.25}, delivered values compared with the reference")
